@@ -235,11 +235,11 @@ func C01(r *ev.Run) {
 			r.Distinct(string(s))
 		})
 	}
-	_, names := concatSegs(menu, []int{13, 8, 20})
+	_, names := concatSegs(menu, []int{14, 8, 21})
 	r.Sample(map[string]interface{}{"enumeration": "S2", "segments": names})
 
 	// S3 ---------------------------------------------------------------
-	lengths := []int{1, 2, 3, 4, 5, 21, 22, 63, 64, 255, 256, 1023}
+	lengths := []int{1, 2, 3, 4, 5, 21, 22, 63, 64, 211, 255, 256, 467, 1023}
 	if thorough {
 		lengths = nil
 		for l := 1; l <= 1023; l++ {
